@@ -578,6 +578,8 @@ func (fr *FuncRun) execInstr(f *Frame, st *State, ins ssa.Instruction) {
 	case *ssa.MakeMap:
 		mt := x.Type().Underlying().(*types.Map)
 		ref := fr.allocRef("map")
+		fr.curWriteFresh = true
+		defer func() { fr.curWriteFresh = false }()
 		dom, ml := w.MapDomHeap(mt), w.MapLenHeap()
 		w.MapValHeap(mt)
 		fr.heapSet(st, dom, sto(fr.heapCur(st, dom), ref, fmt.Sprintf("((as const (Array %s Bool)) false)", w.SortOf(mt.Key()))))
@@ -589,11 +591,15 @@ func (fr *FuncRun) execInstr(f *Frame, st *State, ins ssa.Instruction) {
 		cp := fr.val(f, st, x.Cap)
 		fr.assertOb(st, "negative-len", "make("+exprText(x.Len)+")", and("(<= 0 "+ln.T+")", "(<= "+ln.T+" "+cp.T+")"), x.Pos(), "makeslice: len out of range")
 		ref := fr.allocRef("slice")
+		fr.curWriteFresh = true
+		defer func() { fr.curWriteFresh = false }()
 		eh := w.ElemHeap(stype.Elem())
 		fr.heapSet(st, eh, sto(fr.heapCur(st, eh), ref, fmt.Sprintf("((as const (Array Int %s)) %s)", w.SortOf(stype.Elem()), w.Zero(stype.Elem()))))
 		f.regs[x] = Val{T: fr.def(sSlice, fmt.Sprintf("(mk-slice %s 0 %s %s)", ref, ln.T, cp.T)), S: sSlice}
 	case *ssa.MakeChan:
 		ref := fr.allocRef("chan")
+		fr.curWriteFresh = true
+		defer func() { fr.curWriteFresh = false }()
 		sz := fr.val(f, st, x.Size)
 		ch := w.heap("ChanCap", "(Array Int Int)")
 		fr.heapSet(st, ch, sto(fr.heapCur(st, ch), ref, sz.T))
